@@ -1,7 +1,7 @@
 (* C10 -- Rule selection: FIRST takes the first matching rule, BEST the shortest result.
    Model: Schc.cm_compress (manager.py).  Only statements; proofs in theories/SchcRules.v. *)
 From Coq Require Import ZArith List Bool.
-From MS Require Import PyBase Bits Schc SchcSpec SchcRules Buffer BufferAbs Compute SchcBytes SchcRefine ParserBytes ParserRefine ComputeBytes ComputeRefine ManagerBytes ManagerRefine.
+From MS Require Import PyBase Bits Schc SchcSpec SchcRules Buffer BufferAbs Compute SchcBytes SchcRefine ParserBytes ParserRefine ComputeBytes ComputeRefine ManagerBytes ManagerRefine Parsers ManagerDefault.
 Import ListNotations.
 Open Scope Z_scope.
 
@@ -92,6 +92,28 @@ Example c10_fragmentation_ex :
   cm_compress parse [r0] [true;false] Up FIRST = Exc RuleDescriptorMatchError.
 Proof. vm_compute. repeat split; reflexivity. Qed.
 
+(* a rule set with a no-compression rule compresses every parsable packet: under BEST to at most rule-id length + packet length bits
+   (with a parser of the registry, whose fields and payload tile the packet: literally the packet's length), under FIRST by the first
+   applying rule (ManagerDefault.default_ex: 138 bits by a rule of variable-length fields listed first, 91 = 3 + 88 under BEST) *)
+Theorem c10_default_best parse rules packet d fs pl r0 :
+  parse packet = Ok (fs, pl) -> forallb rule_typed rules = true ->
+  (forall r, In r (filter (spec_rule_applies (mkpdesc d fs pl)) rules) -> exists s, compress (mkpdesc d fs pl) r (Some d) = Ok s) ->
+  In r0 rules -> rule_nature r0 = NoCompression ->
+  exists s, cm_compress parse rules packet d BEST = Ok s /\ zlen s <= zlen (rule_id r0) + zlen (concat (map f_val fs) ++ pl).
+Proof. exact (cm_compress_default_best parse rules packet d fs pl r0). Qed.
+Theorem c10_default_best_stack st rules packet d fs pl r0 :
+  Parsers.factory st packet = Ok (fs, pl) -> forallb rule_typed rules = true ->
+  (forall r, In r (filter (spec_rule_applies (mkpdesc d fs pl)) rules) -> exists s, compress (mkpdesc d fs pl) r (Some d) = Ok s) ->
+  In r0 rules -> rule_nature r0 = NoCompression ->
+  exists s, cm_compress (Parsers.factory st) rules packet d BEST = Ok s /\ zlen s <= zlen (rule_id r0) + zlen packet.
+Proof. exact (cm_compress_default_best_stack st rules packet d fs pl r0). Qed.
+Theorem c10_default_first parse rules packet d fs pl r0 :
+  parse packet = Ok (fs, pl) -> forallb rule_typed rules = true ->
+  (forall r, In r (filter (spec_rule_applies (mkpdesc d fs pl)) rules) -> exists s, compress (mkpdesc d fs pl) r (Some d) = Ok s) ->
+  In r0 rules -> rule_nature r0 = NoCompression ->
+  exists s, cm_compress parse rules packet d FIRST = Ok s.
+Proof. exact (cm_compress_default_first parse rules packet d fs pl r0). Qed.
+
 Print Assumptions c10_first.
 Print Assumptions c10_best.
 Print Assumptions c10_best_earliest.
@@ -103,3 +125,6 @@ Print Assumptions c10_only_fragmentation.
 Print Assumptions c10_fragmentation_never_selected_bytes.
 Print Assumptions c10_manager_bytes.
 Print Assumptions c10_factory_refines.
+Print Assumptions c10_default_best.
+Print Assumptions c10_default_best_stack.
+Print Assumptions c10_default_first.
